@@ -169,8 +169,43 @@ async def _serial(sc: dict) -> dict:
     frame_of_id: dict[int, str] = {}
     proto = PortProtocol(lambda m: None, disable_qos=False)
     ser = FakeSerial(loop, on_write)
+    syncs = sc.get("syncs") or []
+    if syncs:                               # the sync tracker reads packet timestamps against dt_now()
+        fakes.VDT._loop = loop
+        tr.dt_now = fakes.VDT.now
     t = tr.PortTransport(ser, proto, disable_sending=False, loop=loop)
     zero = int(sc.get("zero", 2000))
+    sx: dict[str, list] = {"rx": [], "passes": []}
+    if syncs:
+        # rx: logged right after PortTransport._pkt_read (incl. its @track_system_syncs wrapper) has run;
+        # pass: the body of PortTransport.write_frame is reached (its first statement awaits the semaphore)
+        orig_pkt_read = t._pkt_read
+
+        def pkt_read(pkt) -> None:  # noqa: ANN001
+            orig_pkt_read(pkt)
+            if str(pkt.code) == "1F09" and str(pkt.verb).strip() == "I" and len(pkt.payload) == 6:
+                sx["rx"].append({"t": ticks(loop.time()), "dtm": ticks((pkt.dtm - fakes.EPOCH).total_seconds()), "src": int(pkt.src.id[3:]), "rem": int(pkt.payload[2:6], 16) * 1000})
+
+        t._pkt_read = pkt_read  # type: ignore[method-assign]
+        orig_acquire = t._leaker_sem.acquire
+
+        async def acquire() -> bool:
+            fr = sys._getframe(1)
+            ident = ids.get(fr.f_locals.get("frame"))
+            if ident is not None:
+                sx["passes"].append({"id": ident, "t": ticks(loop.time())})
+            return await orig_acquire()
+
+        t._leaker_sem.acquire = acquire  # type: ignore[method-assign]
+        def deliver(line: bytes) -> None:
+            # the reader callback itself, at exactly this virtual instant (bytes that merely make the socket readable
+            # are picked up only after the clock has jumped to the next timer)
+            ser.chunks.append(line)
+            t._read_ready()
+
+        for when_tick, src, rem in syncs:
+            line = f"045  I --- 01:{src:06d} --:------ 01:{src:06d} 1F09 003 FF{rem:04X}\r\n".encode()
+            loop.call_at((zero + when_tick) * TICK, deliver, line)
     tasks: list[asyncio.Task] = []
     counter = [0]
     errors: list[str] = []
@@ -243,7 +278,7 @@ async def _serial(sc: dict) -> dict:
     poked = sc.get("init") is not None
     return {"mode": "serial", "gap": ticks(tr.MIN_INTER_WRITE_GAP), "maxtok": 0,
             "init": sc["init"] if poked else CAP_UNITS, "t0": zero if poked else 0,
-            "ev": ev, "mw": [], "zero": zero,
+            "ev": ev, "mw": [], "zero": zero, "sx": sx,
             "info": {"sig_writes": n_sig[0], "connected": connected, "topups": topups_seen[0], "errors": errors[:5],
                      "clients_not_done": len(not_done), "end_s": round(loop.time(), 3),
                      "active_gwy": t.get_extra_info("active_gwy")}}
@@ -419,7 +454,7 @@ def conform(results: list[dict], scs: list[dict], workers: int) -> dict:
 
     idx, items = [], []
     for i, (sc, r) in enumerate(zip(scs, results)):
-        if r["mode"] != "serial" or sc.get("clients") or not 1 <= len(sc.get("calls", [])) <= 8:
+        if r["mode"] != "serial" or sc.get("clients") or sc.get("syncs") or not 1 <= len(sc.get("calls", [])) <= 8:
             continue
         zero = r["zero"]
         calls = sorted(sc["calls"], key=lambda c: c[0])
